@@ -121,7 +121,8 @@ extern "C" void h_pfc_c04() {
   int first = 0, last = 0;
   for (int i = 0; i < NSTR; i++)
     if (b.lens[i] >= pl && is_prefix(p, pl, b.s[i])) { if (!first) first = i + 1; last = i + 1; }
-  // known finding (tag 0): absent prefix that is greater than every string of its candidate bucket
+  uchar p0[LMAX + 3];
+  for (int j = 0; j < LMAX + 3; j++) p0[j] = p[j];
   IteratorDictIDContiguous *it = (IteratorDictIDContiguous *)d->locatePrefix(p, pl);
   verif_assert(it != 0, 1);
   if (it) {
@@ -143,7 +144,7 @@ extern "C" void h_pfc_c04() {
     delete it;
   }
   // the pattern buffer is untouched (C14 clause, cheap to assert here)
-  verif_assert(p[pl] == 0 && p[pl + 1] == 0, 8);
+  for (int j = 0; j < LMAX + 3; j++) verif_assert(p[j] == p0[j], 8);
   delete d;
   verif_witness();
 }
